@@ -34,6 +34,9 @@ type Req struct {
 	EH        string   `json:"eh"`         // none | header+body | body | nothing | status
 	Stream    bool     `json:"stream"`
 	Real      bool     `json:"real"` // through a real net/http server instead of a ResponseRecorder
+	// ToGoHTML: instead of an HTTP request the component is rendered with templ.ToGoHTML, which
+	// uses the same byte-buffer pool as the buffered handler.
+	ToGoHTML bool `json:"to_go_html"`
 }
 
 type Case struct {
@@ -41,7 +44,7 @@ type Case struct {
 }
 
 var rec = ev.New("C11", "c11.handler",
-	"histories of 1..12 requests against templ.Handler with generated configuration (status unset/200/201/404/500, content type, error handler none / header+body / body only / nothing / status only, streaming on/off) and a component that writes k chunks "+
+	"histories of 1..12 requests against templ.Handler (and renders through templ.ToGoHTML, which shares its buffer pool) with generated configuration (status unset/200/201/404/500, content type, error handler none / header+body / body only / nothing / status only, streaming on/off) and a component that writes k chunks "+
 		"(0..64KiB, alphabet disjoint from every error text) then fails or not, via httptest.ResponseRecorder and via a real loopback net/http server; buffered oracle: success => configured status+content type+exact document; failure => exactly the default 500 message or exactly the error handler's response, no document byte, "+
 		"never the configured success status. Non-trivial = failure after >=1 chunk, or a success following a failure in the same history; distinct by request configuration + position")
 
@@ -120,6 +123,22 @@ func do(r Req, sawErr *error) (out resp, err error) {
 			err = fmt.Errorf("panic: %v", x)
 		}
 	}()
+	if r.ToGoHTML {
+		html, err := templ.ToGoHTML(context.Background(), component(r))
+		if err != nil {
+			*sawErr = err
+			return resp{code: 500, body: defaultMsg}, nil
+		}
+		code := r.Status
+		if code == 0 {
+			code = 200
+		}
+		ct := r.CT
+		if ct == "" {
+			ct = "text/html; charset=utf-8"
+		}
+		return resp{code: code, ct: ct, body: string(html)}, nil
+	}
 	h := handler(r, sawErr)
 	if r.Real {
 		srv := httptest.NewServer(h)
@@ -243,6 +262,10 @@ var genReq = rapid.Custom(func(t *rapid.T) Req {
 		EH:     rapid.SampledFrom([]string{"none", "none", "header+body", "body", "nothing", "status"}).Draw(t, "eh"),
 		Stream: rapid.IntRange(0, 5).Draw(t, "stream") == 0,
 		Real:   rapid.IntRange(0, 7).Draw(t, "real") == 0,
+	}
+	if rapid.IntRange(0, 5).Draw(t, "togohtml") == 0 {
+		// modelled as a request without error handler and streaming: success = the document, failure = an error
+		r.ToGoHTML, r.EH, r.Stream, r.Real = true, "none", false, false
 	}
 	r.FailAfter = -1
 	if rapid.Bool().Draw(t, "fails") {
